@@ -133,6 +133,16 @@ impl El for HeapTok {
         HeapTok::new(v)
     }
 }
+/// over-aligned: the reference-count header of an Arc, the tag of an option/result and the
+/// element stride of vectors and slices all sit elsewhere than for ordinary payloads
+#[repr(C, align(64))]
+#[derive(Clone, Copy, PartialEq, Debug)]
+pub struct Wide(u64);
+impl El for Wide {
+    fn mk(v: u64) -> Self {
+        Wide(v)
+    }
+}
 
 #[derive(Debug, Clone, Serialize, Deserialize)]
 pub struct Case {
@@ -349,27 +359,28 @@ fn body<T: El>(c: &Case) -> Result<bool, Fail> {
 }
 
 pub fn check(c: &Case) -> CaseResult {
-    let (r, rep) = tracked_confirmed(|| match c.elem % 6 {
+    let (r, rep) = tracked_confirmed(|| match c.elem % 7 {
         0 => body::<u8>(c),
         1 => body::<u16>(c),
         2 => body::<u32>(c),
         3 => body::<u64>(c),
         4 => body::<Big>(c),
+        5 => body::<Wide>(c),
         _ => body::<HeapTok>(c),
     });
     let nontrivial = r?;
     let bad = tok::mismatches(|_| 1);
     ensure!(bad.is_empty(), "drop-count", "values with drop count != 1 (id, expected, seen): {:?}", &bad[..bad.len().min(4)]);
     if !rep.clean() {
-        fail!(if rep.misuses.is_empty() { "leak" } else { "alloc-misuse" }, "{} (carrier {}, elem {})", rep.describe(), c.carrier % 9, c.elem % 6);
+        fail!(if rep.misuses.is_empty() { "leak" } else { "alloc-misuse" }, "{} (carrier {}, elem {})", rep.describe(), c.carrier % 9, c.elem % 7);
     }
     Ok(Info::new(nontrivial)
         .class(["CBox", "CSliceBox", "CArc", "CSlice", "CVec", "Callback", "CIterator", "COption", "CResult"][(c.carrier % 9) as usize])
-        .class(format!("elem{}", c.elem % 6)))
+        .class(format!("elem{}", c.elem % 7)))
 }
 
 pub fn strategy() -> impl Strategy<Value = Case> {
-    (0u8..9, 0u8..6, 0u8..40, prop::collection::vec(any::<u64>(), 1..6), any::<bool>()).prop_map(|(carrier, elem, n, vals, flag)| Case { carrier, elem, n, vals, flag })
+    (0u8..9, 0u8..7, 0u8..40, prop::collection::vec(any::<u64>(), 1..6), any::<bool>()).prop_map(|(carrier, elem, n, vals, flag)| Case { carrier, elem, n, vals, flag })
 }
 
 pub fn run(ctx: &Ctx) -> i32 {
@@ -377,7 +388,7 @@ pub fn run(ctx: &Ctx) -> i32 {
         ctx.run("views", 1, strategy(), check);
     } else {
         'o: for carrier in 0..9u8 {
-            for elem in 0..6u8 {
+            for elem in 0..7u8 {
                 for n in [0u8, 1, 2, 7] {
                     for flag in [false, true] {
                         let c = Case { carrier, elem, n, vals: vec![3, 0xffff_ffff_ffff, 77], flag };
@@ -391,7 +402,7 @@ pub fn run(ctx: &Ctx) -> i32 {
         ctx.run("views", ctx.n(20_000, 300_000), strategy(), check);
     }
     ctx.finish(
-        "carrier in {CBox, CSliceBox, CArc/CArcSome, CSliceRef/CSliceMut, CVec, OpaqueCallback, CIterator, COption, CResult} x element types {u8,u16,u32,u64,24-byte struct,droppable heap token} x sizes 0..40 (full product of carrier x element x small sizes enumerated, then random): the value is bit-copied into a C-view struct declared from the published layout (field order, function signatures, enum = {int tag; union}) and released / cloned / read / grown / invoked / advanced only through the view; effects (contents, strong counts, drop counts, allocator balance and layouts) are compared with the Rust-side model, and values assembled from C fields are handed back to Rust. Non-trivial = the operation goes through a function pointer or reads a non-first field",
+        "carrier in {CBox, CSliceBox, CArc/CArcSome, CSliceRef/CSliceMut, CVec, OpaqueCallback, CIterator, COption, CResult} x element types {u8,u16,u32,u64,24-byte struct,64-byte-aligned struct,droppable heap token} x sizes 0..40 (full product of carrier x element x small sizes enumerated, then random): the value is bit-copied into a C-view struct declared from the published layout (field order, function signatures, enum = {int tag; union}) and released / cloned / read / grown / invoked / advanced only through the view; effects (contents, strong counts, drop counts, allocator balance and layouts) are compared with the Rust-side model, and values assembled from C fields are handed back to Rust. Non-trivial = the operation goes through a function pointer or reads a non-first field",
         &["the view structs in the harness are the statement of the published layout (cross-checked against examples/pregen-headers in DESIGN.md)"],
         false,
     )
